@@ -33,8 +33,9 @@ type Case struct {
 	Bs      int64      `json:"bs"`
 	Size    int64      `json:"size"`
 	Fit     bool       `json:"fit"`
-	Init    [][3]int64 `json:"init,omitempty"` // runs (offset, length, byte)
-	Backend string     `json:"backend"`        // mem | mmf
+	Init    [][3]int64 `json:"init,omitempty"`  // runs (offset, length, byte)
+	Backend string     `json:"backend"`         // mem | mmf
+	Grown   int64      `json:"grown,omitempty"` // mmf: the file is created with this (smaller) size and brought to Size by MMFile.Grow before the allocator is opened
 	Ops     []Op       `json:"ops,omitempty"`
 	Every   int        `json:"every,omitempty"` // recover the allocated set after every n-th call (0: last call only)
 	RFrom   int        `json:"rfrom,omitempty"` // ... starting with this call
@@ -144,9 +145,18 @@ func (st *store) open(first bool) error {
 		if !first {
 			sz = -1 // map the file as it is
 		}
+		if first && st.c.Grown > 0 && st.c.Grown < sz {
+			sz = st.c.Grown // a file that starts small and is grown to its working size
+		}
 		mf, err := files.NewMMFile(st.path, sz)
 		if err != nil {
 			return err
+		}
+		if first && sz < st.c.Size {
+			if err := mf.Grow(st.c.Size); err != nil {
+				mf.Close()
+				return err
+			}
 		}
 		st.buf = mf
 	default:
